@@ -4,8 +4,8 @@
 package simos
 
 import (
-	"fmt"
 	"errors"
+	"fmt"
 	"io"
 	"io/fs"
 	"os"
